@@ -551,8 +551,6 @@ Qed.
 
 (* ---- trees of the same shape (same paths, kinds, modes, link targets; file contents may
    differ) resolve every path alike *)
-Definition nshape (n : node) : node := match n with NFile _ m => NFile [] m | x => x end.
-Definition tshape (t : tree) : tree := map (fun e => (fst e, nshape (snd e))) t.
 Definition shape_eq (t1 t2 : tree) : Prop := tshape t1 = tshape t2.
 
 Lemma lookup_tshape t p : lookup (tshape t) p = option_map nshape (lookup t p).
@@ -644,6 +642,203 @@ Definition rerun_fixpoint_restricted_full_statement : Prop :=
     let r2 := run_file_full (cfg_update cfg false) work env file' in
     r_verdict (f_run r2) = Pass /\ f_change r2 = Untouched.
 
+(* ---- the executable link between the two set-ups *)
+
+Lemma path_eqb_eq p q : path_eqb p q = true -> p = q.
+Proof.
+  revert q. induction p as [|x p IH]; destruct q as [|y q]; simpl; try discriminate; [reflexivity|].
+  intros H. apply andb_true_iff in H. destruct H as [H1 H2]. apply bytes_eqb_eq in H1. rewrite H1, (IH _ H2). reflexivity.
+Qed.
+Lemma node_eqb_eq a b : node_eqb a b = true -> a = b.
+Proof.
+  destruct a, b; simpl; try discriminate; intros H.
+  - apply andb_true_iff in H. destruct H as [H1 H2]. apply bytes_eqb_eq in H1. apply N.eqb_eq in H2. congruence.
+  - apply N.eqb_eq in H. congruence.
+  - apply bytes_eqb_eq in H. congruence.
+Qed.
+Lemma tree_eqb_eq a b : tree_eqb a b = true -> a = b.
+Proof.
+  revert b. induction a as [|[p n] a IH]; destruct b as [|[q m] b]; simpl; try discriminate; [reflexivity|].
+  intros H. apply andb_true_iff in H. destruct H as [H H3]. apply andb_true_iff in H. destruct H as [H1 H2].
+  rewrite (path_eqb_eq _ _ H1), (node_eqb_eq _ _ H2), (IH _ H3). reflexivity.
+Qed.
+Lemma shape_ok_eq t1 t2 : shape_ok t1 t2 = true -> shape_eq t1 t2.
+Proof. apply tree_eqb_eq. Qed.
+Lemma names_eqb_eq a b : names_eqb a b = true -> a = b.
+Proof.
+  revert b. induction a as [|x a IH]; destruct b as [|y b]; simpl; try discriminate; [reflexivity|].
+  intros H. apply andb_true_iff in H. destruct H as [H1 H2]. apply bytes_eqb_eq in H1. rewrite H1, (IH _ H2). reflexivity.
+Qed.
+
+Lemma assoc_get_In m k v : assoc_get m k = Some v -> In (k, v) m.
+Proof.
+  induction m as [|[k' v'] r IH]; simpl; [discriminate|].
+  destruct (bytes_eqb k k') eqn:E.
+  - intros H. inversion H; subst. apply bytes_eqb_eq in E. subst. left. reflexivity.
+  - intros H. right. apply IH. exact H.
+Qed.
+
+Lemma tables_ok_tables st1 t2 U : tables_ok st1 t2 U = true -> golden_tables st1 t2 U.
+Proof.
+  intros H p e Hp. unfold tables_ok in H. rewrite forallb_forall in H.
+  specialize (H (p, e) (assoc_get_In _ _ _ Hp)). simpl in H.
+  destruct (read_file (s_fs st1) p) as [g1|]; [|discriminate].
+  destruct (read_file t2 p) as [g2|]; [|discriminate].
+  apply bytes_eqb_eq in H. subst g2. eauto.
+Qed.
+
+(* unpacking two archives with the same entry names gives states that differ in the tree only *)
+Lemma unpack_same_names u : forall fs fs' stA stB sA sB,
+  map fst fs = map fst fs' ->
+  stB = swapfu stA (s_fs stB) (s_updates stA) ->
+  unpack u fs stA = (sA, true) -> unpack u fs' stB = (sB, true) ->
+  sB = swapfu sA (s_fs sB) (s_updates sA).
+Proof.
+  induction fs as [|[n d] r IH]; intros fs' stA stB sA sB Hn Hrel HA HB.
+  - destruct fs' as [|[n' d'] r']; [|discriminate]. simpl in *. inversion HA; inversion HB; subst. exact Hrel.
+  - destruct fs' as [|[n' d'] r']; [discriminate|]. simpl in Hn. inversion Hn as [[Hn1 Hn2]]. subst n'.
+    cbn [unpack] in HA, HB.
+    assert (mkabs stB (expand [] n) = mkabs stA (expand [] n)) as Hp by (rewrite Hrel; reflexivity).
+    rewrite Hp in HB. set (p := mkabs stA (expand [] n)) in *.
+    assert (s_files stB = s_files stA) as Hfl by (rewrite Hrel; reflexivity). rewrite Hfl in HB.
+    destruct (mkdir_all (s_fs (set_files stA (assoc_set (s_files stA) p n))) (dir p) 511) as [t1A [|]]; [|inversion HA].
+    destruct (mkdir_all (s_fs (set_files stB (assoc_set (s_files stA) p n))) (dir p) 511) as [t1B [|]]; [|inversion HB].
+    destruct (if u then write_file_excl t1A p d 438 else write_file t1A p d 438) as [t2A|]; [|inversion HA].
+    destruct (if u then write_file_excl t1B p d' 438 else write_file t1B p d' 438) as [t2B|]; [|inversion HB].
+    eapply (IH r' _ _ sA sB Hn2 _ HA HB).
+    Unshelve. rewrite Hrel. reflexivity.
+Qed.
+
+Lemma setup_same_names cfg b work env a a' st1 st2 :
+  map fst (files a) = map fst (files a') ->
+  setup cfg work env a = (st1, true) -> setup (cfg_update cfg b) work env a' = (st2, true) ->
+  st2 = swapfu st1 (s_fs st2) [] /\ s_updates st1 = [].
+Proof.
+  intros Hn H1 H2. unfold setup in *. change (c_unique (cfg_update cfg b)) with (c_unique cfg) in H2.
+  destruct (mkdir_all [] _ 511) as [t [|]]; [|inversion H1].
+  assert (s_updates st1 = []) as Hu.
+  { pose proof (upd_unpack (c_unique cfg) (files a) (empty_state env work t)) as H. rewrite H1 in H. exact H. }
+  split; [|exact Hu].
+  pose proof (unpack_same_names (c_unique cfg) (files a) (files a') (empty_state env work t) (empty_state env work t) st1 st2 Hn eq_refl H1 H2) as H.
+  rewrite Hu in H. exact H.
+Qed.
+
+(* THE RESTRICTED FIX-POINT, file level: when the update run of a script of the class passes
+   and rewrites the file, and the executable link check holds of the two files, the second
+   run (flag off) passes and writes nothing *)
+Theorem rerun_fixpoint_restricted_checked cfg work env file file' st1 :
+  c_update cfg = true ->
+  setup cfg work env (parse file) = (st1, true) ->
+  safe_run cfg (script_lines (comment (parse file))) 0 st1 [] ->
+  r_verdict (f_run (run_file_full cfg work env file)) = Pass ->
+  rerun_link_ok cfg work env file file' (s_updates (r_final (run_file cfg work env file))) = true ->
+  r_verdict (f_run (run_file_full (cfg_update cfg false) work env file')) = Pass
+  /\ f_change (run_file_full (cfg_update cfg false) work env file') = Untouched.
+Proof.
+  intros Hu Hs1 Hsafe Hv Hlink.
+  split; [|apply rerun_writes_nothing].
+  (* run 1 as a plain run *)
+  assert (f_change (run_file_full cfg work env file) <> UpdateError) as Hne.
+  { intros Hc. destruct (update_error_fails cfg work env file Hc) as [[n Hn] _]. congruence. }
+  rewrite (update_ok_verdict cfg work env file Hne) in Hv.
+  unfold rerun_link_ok in Hlink. rewrite Hs1 in Hlink.
+  destruct (setup (cfg_update cfg false) work env (parse file')) as [st2 [|]] eqn:Hs2; [|discriminate].
+  apply andb_true_iff in Hlink. destruct Hlink as [Hlink Htab].
+  apply andb_true_iff in Hlink. destruct Hlink as [Hlink Hshape].
+  apply andb_true_iff in Hlink. destruct Hlink as [Hnames Hcomment].
+  apply names_eqb_eq in Hnames. apply bytes_eqb_eq in Hcomment.
+  destruct (setup_same_names cfg false work env _ _ st1 st2 Hnames Hs1 Hs2) as [Hrel Hu0].
+  rewrite (update_ok_verdict (cfg_update cfg false) work env file').
+  2: { rewrite rerun_writes_nothing. discriminate. }
+  unfold run_file in *. unfold run_archive in Hv, Htab. rewrite Hs1 in Hv, Htab.
+  destruct (run_script cfg (comment (parse file)) st1) as [v stF fl] eqn:Hrun. simpl in Hv, Htab. subst v.
+  assert (fl = []) as ->.
+  { unfold run_script in Hrun. destruct (run_lines cfg (script_lines (comment (parse file))) 0 false st1) as [[k s] f] eqn:E.
+    inversion Hrun as [[Hk Hs Hf]]. apply mk_verdict_pass in Hk. subst k. apply run_lines_pass in E. destruct E as [_ E]. congruence. }
+  rewrite (rerun_fixpoint_restricted_partial cfg work env (parse file) (parse file') st1 st2 stF); auto.
+  - apply shape_ok_eq. exact Hshape.
+  - apply tables_ok_tables. exact Htab.
+Qed.
+
+(* ---- the executable class check is sound *)
+
+Lemma guards_dec_pass cfg st words cw : guards_dec cfg st words = GPass cw -> guards_pass cfg st words cw.
+Proof.
+  revert cw. induction words as [|w rest IH]; intros cw H; simpl in H; [discriminate|].
+  destruct (guard_of w) as [[want c]|] eqn:Hg.
+  - destruct rest as [|r0 rest']; [discriminate|].
+    destruct (cond_eval cfg st c) as [b0|] eqn:Hc; [|discriminate].
+    destruct (Bool.eqb b0 want) eqn:Eb; [|discriminate].
+    apply eqb_true_eq in Eb. subst b0. eapply GP_step; eauto. discriminate.
+  - inversion H; subst. apply GP_done. exact Hg.
+Qed.
+
+Lemma guards_dec_block cfg st words : guards_dec cfg st words = GBlock -> guards_block cfg st words.
+Proof.
+  induction words as [|w rest IH]; intros H; simpl in H; [discriminate|].
+  destruct (guard_of w) as [[want c]|] eqn:Hg; [|discriminate].
+  destruct rest as [|r0 rest']; [discriminate|].
+  destruct (cond_eval cfg st c) as [b0|] eqn:Hc; [|discriminate].
+  destruct (Bool.eqb b0 want) eqn:Eb.
+  - apply eqb_true_eq in Eb. subst b0. eapply GB_later; eauto. discriminate.
+  - apply eqb_false_negb in Eb. subst b0. eapply GB_here; eauto. discriminate.
+Qed.
+
+Lemma mem_b_In x l : mem_b x l = false -> ~ In x l.
+Proof.
+  induction l as [|y r IH]; simpl; [tauto|]. intros H. apply orb_false_iff in H. destruct H as [H1 H2].
+  intros [->|Hin]; [rewrite bytes_eqb_refl in H1; discriminate|exact (IH H2 Hin)].
+Qed.
+
+Lemma line_class_b_sound cfg st l seen seen' :
+  line_class_b cfg st l seen = Some seen' -> line_class cfg st l seen seen'.
+Proof.
+  unfold line_class_b. destruct (tokenise (s_env st) l) as [[|w ws]|] eqn:Ht; try discriminate.
+  - intros H. inversion H; subst. apply LC_blank. exact Ht.
+  - destruct (guards_dec cfg st (w :: ws)) as [|cw|] eqn:Hg; try discriminate.
+    + intros H. inversion H; subst. eapply LC_guard; [exact Ht|apply guards_dec_block; exact Hg].
+    + apply guards_dec_pass in Hg.
+      destruct (split_neg cw) as [[[neg name] args]|] eqn:Hs; [|discriminate].
+      destruct (lookup_cmd cfg name) as [c|] eqn:Hl; [|discriminate].
+      assert (reaches cfg st l neg c args) as Hr by (econstructor; eauto).
+      destruct (tree_free c args) eqn:Hf.
+      * intros H. inversion H; subst. eapply LC_free; eauto.
+      * destruct (is_cmp_ref c && negb neg) eqn:Hc; [|discriminate].
+        apply andb_true_iff in Hc. destruct Hc as [Hc Hn]. apply negb_true_iff in Hn. subst neg.
+        destruct c as [name'| |]; try discriminate. simpl in Hc. apply bytes_eqb_eq in Hc. subst name'.
+        destruct args as [|src [|g [|x r]]]; try discriminate.
+        destruct (is_std src) eqn:Hstd; [|discriminate].
+        destruct (assoc_get (s_files st) (mkabs st g)) as [entry|] eqn:Hfile; [|discriminate].
+        destruct (mem_b entry seen) eqn:Hm; [discriminate|].
+        intros H. inversion H; subst. eapply LC_cmp; [exact Hr| |apply mem_b_In; exact Hm].
+        split; [reflexivity|]. split; [reflexivity|]. exists src, g. auto.
+Qed.
+
+Lemma safe_run_b_sound cfg ls : forall n st seen, safe_run_b cfg ls n st seen = true -> safe_run cfg ls n st seen.
+Proof.
+  induction ls as [|l ls IH]; intros n st seen H; simpl in *; [exact I|].
+  destruct (is_comment l); [apply IH; exact H|].
+  destruct (line_class_b cfg (at_line (S n) false st) l seen) as [seen'|] eqn:Hc; [|discriminate].
+  exists seen'. split; [apply line_class_b_sound; exact Hc|].
+  destruct (run_line cfg (at_line (S n) false st) l) as [s|s|s]; try exact I.
+  destruct (s_stopped s); [exact I|apply IH; exact H].
+Qed.
+
+(* THE RESTRICTED FIX-POINT with every side condition executable: [rerun_covered] is a
+   boolean function of the two files (evaluated by the runner on each generated case) *)
+Theorem rerun_fixpoint_covered cfg work env file file' :
+  c_update cfg = true ->
+  r_verdict (f_run (run_file_full cfg work env file)) = Pass ->
+  rerun_covered cfg work env file file' = true ->
+  r_verdict (f_run (run_file_full (cfg_update cfg false) work env file')) = Pass
+  /\ f_change (run_file_full (cfg_update cfg false) work env file') = Untouched.
+Proof.
+  intros Hu Hv Hc. unfold rerun_covered in Hc.
+  destruct (setup cfg work env (parse file)) as [st1 [|]] eqn:Hs; [|discriminate].
+  apply andb_true_iff in Hc. destruct Hc as [Hsafe Hlink].
+  eapply rerun_fixpoint_restricted_checked; eauto. apply safe_run_b_sound. exact Hsafe.
+Qed.
+
 (* ---- non-vacuity: a concrete script of the class, all hypotheses by computation *)
 Module RerunExample.
 Import String.
@@ -719,4 +914,15 @@ Proof.
   - exact ex_golden_tables.
   - exact ex_safe_run.
 Qed.
+
+(* the executable check accepts this file, so the theorem applies to it *)
+Example ex_covered : rerun_covered cfg0 work env0 f7 f7' = true.
+Proof. vm_compute. reflexivity. Qed.
+Example ex_rerun_by_theorem :
+  r_verdict (f_run (run_file_full (cfg_update cfg0 false) work env0 f7')) = Pass
+  /\ f_change (run_file_full (cfg_update cfg0 false) work env0 f7') = Untouched.
+Proof. apply (rerun_fixpoint_covered cfg0 work env0 f7 f7'); [reflexivity|vm_compute; reflexivity|exact ex_covered]. Qed.
+(* ... and rejects the witness of the unrestricted statement (one entry compared twice) *)
+Example ex_not_covered : rerun_covered cfg0 work env0 f6 f6' = false.
+Proof. vm_compute. reflexivity. Qed.
 End RerunExample.
